@@ -635,21 +635,64 @@ impl<T: Tagged> ThreadCtx<T> {
                 "unit".into()
             }
             "cloner" => {
-                // the receiver handle is replaced by a clone made through the async flavour
+                // the receiver handle is replaced by a clone made through one of the four ways of cloning a receiver
                 if let Some(r) = self.r.take() {
-                    let a = r.to_async();
-                    let c = a.clone_sync();
-                    drop(a);
+                    let c: Receiver<T> = match p(1) % 4 {
+                        0 => {
+                            let a = r.to_async();
+                            let c = a.clone_sync();
+                            drop(a);
+                            c
+                        }
+                        1 => {
+                            let c = (*r).clone();
+                            drop(r);
+                            c
+                        }
+                        2 => {
+                            let c = r.clone_async();
+                            drop(r);
+                            c.to_sync()
+                        }
+                        _ => {
+                            let a = r.to_async();
+                            let c = a.clone();
+                            drop(a);
+                            c.to_sync()
+                        }
+                    };
                     self.r = Some(Box::new(c));
                 }
                 "unit".into()
             }
             "clones" => {
-                // clone through the async flavour and drop the original: conversions in the concurrent setting
+                // the same for the four ways of cloning a sender
                 if let Some(s) = self.s.take() {
-                    let a = s.clone_async();
-                    drop(s);
-                    self.s = Some(Box::new(a.to_sync()));
+                    let c: Sender<T> = match p(1) % 4 {
+                        0 => {
+                            let a = s.clone_async();
+                            drop(s);
+                            a.to_sync()
+                        }
+                        1 => {
+                            let c = (*s).clone();
+                            drop(s);
+                            c
+                        }
+                        2 => {
+                            let a = s.to_async();
+                            let c = a.clone_sync();
+                            drop(a);
+                            c
+                        }
+                        _ => {
+                            let a = s.to_async();
+                            let c = a.clone();
+                            drop(a);
+                            c.to_sync()
+                        }
+                    };
+                    self.s = Some(Box::new(c));
                 }
                 "unit".into()
             }
